@@ -23,7 +23,7 @@ static unsigned mklen (int scheme, int i)
 {	static const unsigned fixed [] = { 0, 1, 2, 3, 4, 5, 7, 8, 255, 256, 1023, 4095 } ;
 	switch (scheme) { case 0 : return fixed [i % 12] ; case 1 : return 1 + vh_rint (40) ; case 2 : return 13 ; case 3 : return (i % 17 == 0) ? 20000 + vh_rint (45537) : vh_rint (64) ; default : return vh_rint (300) ; } }
 
-static char wlog [200] ;
+static char wlog [200] ; static int full_steps ;
 static void run_case (int format, int ch, int n, int idscheme, int lenscheme, int mix, int late)
 {	MEMF m ; SNDFILE *s ; SF_INFO ri ; CH *cs = calloc (n + 2, sizeof (CH)) ; const char *fn = vh_fname (format) ; int i, N = 777, rc, fp = vh_is_fp (format & SF_FORMAT_SUBMASK) ;
 	char idqb [40] ; const char *idq ;
@@ -81,6 +81,7 @@ static void run_case (int format, int ch, int n, int idscheme, int lenscheme, in
 		vh_viol (vh_key ("C13|string-lost|%s%s%s", fn, over, idq), "title string set before the chunks came back as '%s'", sf_get_string (s, SF_STR_TITLE) ? sf_get_string (s, SF_STR_TITLE) : "(null)") ;
 	/* full iteration */
 	{	SF_CHUNK_ITERATOR *it = sf_get_chunk_iterator (s, NULL) ; int steps = 0, next = 0, limit = n + 80 ;
+		full_steps = -1 ;
 		while (it != NULL && steps <= limit)
 		{	SF_CHUNK_INFO ci ; memset (&ci, 0, sizeof (ci)) ; steps++ ;
 			rc = sf_get_chunk_size (it, &ci) ;
@@ -96,6 +97,7 @@ static void run_case (int format, int ch, int n, int idscheme, int lenscheme, in
 				}
 			it = sf_next_chunk_iterator (it) ;
 			}
+		if (steps <= limit) full_steps = steps ;
 		if (steps > limit) vh_viol (vh_key ("C13|iterator-does-not-terminate|%s", fn), "full iteration still going after %d steps for %d stored chunks", steps, n) ;
 		else if (next != n) vh_viol (vh_key ("C13|chunk-missing-in-full-iteration|%s%s%s", fn, over, idq), "%d chunks set, full iteration found the first %d in order (visited %d chunks in all); chunk %d is id '%s' len %u", n, next, steps, next, cs [next].id, cs [next].len) ;
 		else vh_stat ("full_iterations_complete", 1) ;
@@ -141,8 +143,14 @@ static void run_case (int format, int ch, int n, int idscheme, int lenscheme, in
 	{	SF_CHUNK_ITERATOR *it ; sf_count_t g1, g2 ; int bad = 0 ; float *fb = malloc (sizeof (float) * (N + 2) * ch) ; short *back = malloc (sizeof (short) * (N + 2) * ch) ;
 		sf_seek (s, 0, SEEK_SET) ;
 		g1 = fp ? sf_readf_float (s, fb, 17) : sf_readf_short (s, back, 17) ;
+		{ SF_CHUNK_INFO q0 ; memset (&q0, 0, sizeof (q0)) ; snprintf (q0.id, sizeof (q0.id), "%s", cs [0].id) ; q0.id_size = cs [0].idlen ; (void) sf_get_chunk_iterator (s, &q0) ; }	/* an iteration by id that is left unfinished */
 		it = sf_get_chunk_iterator (s, NULL) ;
-		while (it) { SF_CHUNK_INFO ci ; memset (&ci, 0, sizeof (ci)) ; if (sf_get_chunk_size (it, &ci) == 0 && ci.datalen < 70000000) { unsigned char *b = vh_guard_alloc (ci.datalen, 0xEE) ; ci.data = b ; sf_get_chunk_data (it, &ci) ; free (b) ; } it = sf_next_chunk_iterator (it) ; }
+		{	int visited = 0 ;
+		while (it) { SF_CHUNK_INFO ci ; memset (&ci, 0, sizeof (ci)) ; visited++ ; if (sf_get_chunk_size (it, &ci) == 0 && ci.datalen < 70000000) { unsigned char *b = vh_guard_alloc (ci.datalen, 0xEE) ; ci.data = b ; sf_get_chunk_data (it, &ci) ; free (b) ; } it = sf_next_chunk_iterator (it) ; if (visited > n + 90) break ; }
+		/* this full iteration comes after the by-id iterations above: it must see as many chunks as the first full iteration did */
+		if (full_steps >= 0 && visited != full_steps) vh_viol (vh_key ("C13|full-iteration-after-by-id|%s%s%s", fn, over, idq), "a full iteration (NULL id) started after iterations by id visits %d chunks, the first full iteration visited %d", visited, full_steps) ;
+		else vh_stat ("full_iterations_after_by_id_equal", 1) ;
+		}
 		g2 = fp ? sf_readf_float (s, fb + 17 * ch, N - 17) : sf_readf_short (s, back + 17 * ch, N - 17) ;
 		if (fp) for (i = 0 ; i < N * ch ; i++) back [i] = (short) lrintf (fb [i]) ;
 		if (g1 != 17 || g2 != N - 17) bad = 1 ; else if (memcmp (back, audio, sizeof (short) * N * ch)) bad = 2 ;
